@@ -136,6 +136,9 @@ func c53CheckDir(x *dbx, mutate func(dir string), variant string) *vx.Fail {
 	// end of the range whether the WAL is replayed at all, and that timestamp belongs to the head
 	if mb, ok := rw.inOrderBlocksMaxTime(); ok {
 		ranges = append(ranges, [2]int64{math.MinInt64, mb})
+		// ... and a range ending BELOW it: out-of-order samples held in the WBL can be older than
+		// the newest block, so the head is needed even though the blocks cover the range
+		ranges = append(ranges, [2]int64{math.MinInt64, mb - 1})
 	}
 	want := map[string]string{}
 	for _, rg := range ranges {
@@ -256,18 +259,7 @@ func TestVerifC53(t *testing.T) {
 	plans := vx.Pick(r,
 		[]plan{{"ooo", "small", 2}, {"ooo+overlap", "small", 2}},
 		[]plan{{"ooo", "small", 4}, {"base", "small", 4}, {"ooo+overlap", "small", 4}, {"ooo", "medium", 3}, {"oooneg", "small", 4}})
-	for _, p := range plans {
-		if r.Expired() {
-			r.NotExhaustive("deadline before plan " + p.cfg)
-			break
-		}
-		c := cfgs[p.cfg]
-		c.Alphabet = p.alpha
-		name := p.cfg + "@" + p.alpha
-		res := r.BFS(name, func() vx.Sys { return c53New(r, c, name) }, p.depth)
-		t.Logf("C53 %s depth %d: states=%d transitions=%d", name, p.depth, res.States, res.Transitions)
-	}
-	// search from non-initial states
+	// FIRST (targeted, must not be cut off by the deadline): search from non-initial states
 	for _, cn := range vx.Pick(r, []string{"ooo"}, []string{"ooo", "base", "ooo+overlap"}) {
 		if r.Expired() {
 			r.NotExhaustive("deadline before the non-initial-state search of " + cn)
@@ -278,5 +270,16 @@ func TestVerifC53(t *testing.T) {
 		name := cn + "@small+starts"
 		res := r.BFSFrom(name, func() vx.Sys { return c53New(r, c, name) }, dbxStarts(c.W), vx.Pick(r, 0, 1))
 		t.Logf("C53 %s: states=%d transitions=%d", name, res.States, res.Transitions)
+	}
+	for _, p := range plans {
+		if r.Expired() {
+			r.NotExhaustive("deadline before plan " + p.cfg)
+			break
+		}
+		c := cfgs[p.cfg]
+		c.Alphabet = p.alpha
+		name := p.cfg + "@" + p.alpha
+		res := r.BFS(name, func() vx.Sys { return c53New(r, c, name) }, p.depth)
+		t.Logf("C53 %s depth %d: states=%d transitions=%d", name, p.depth, res.States, res.Transitions)
 	}
 }
